@@ -197,7 +197,7 @@ func runC06(s *core.Sim, tier string) RunInfo {
 		var st *store.Store[*H]
 		var err error
 		ok := w.do(fmt.Sprintf("reopen@%d", k), func() {
-			st, err = store.NewStore[*H](img.Flavour(w.Flav), store.WithParams(w.P))
+			st, err = store.NewStore[*H](img.Flavour(w.Flav), w.storeOpts()...)
 			if err == nil {
 				err = st.Start(context.Background())
 			}
@@ -241,14 +241,14 @@ func (w *SW) checkReopenedAt(st *store.Store[*H], d *simdisk.Disk, why string) {
 		surv := map[uint64]bool{}
 		index := map[uint64]bool{}
 		for _, k := range d.Keys() {
-			name := strings.TrimPrefix(k, "/headers/")
+			name := strings.TrimPrefix(k, w.Prefix+"/")
 			if n, err := strconv.ParseUint(name, 10, 64); err == nil {
 				index[n] = true
 			}
 		}
 		maxS := uint64(0)
 		for h := ch.First; h < ch.First+200; h++ {
-			if _, ok := d.Raw("/headers/" + ch.At(h).Hash().String()); ok {
+			if _, ok := d.Raw(w.Prefix + "/" + ch.At(h).Hash().String()); ok {
 				surv[h] = true
 				if h > maxS {
 					maxS = h
@@ -343,10 +343,10 @@ func (w *SW) checkReopenedAt(st *store.Store[*H], d *simdisk.Disk, why string) {
 
 func (w *SW) whereOn(d *simdisk.Disk, h uint64) string {
 	var parts []string
-	if _, ok := d.Raw("/headers/" + w.Ch.At(h).Hash().String()); ok {
+	if _, ok := d.Raw(w.Prefix + "/" + w.Ch.At(h).Hash().String()); ok {
 		parts = append(parts, "disk-hash")
 	}
-	if _, ok := d.Raw(fmt.Sprintf("/headers/%d", h)); ok {
+	if _, ok := d.Raw(fmt.Sprintf("%s/%d", w.Prefix, h)); ok {
 		parts = append(parts, "disk-index")
 	}
 	if len(parts) == 0 {
